@@ -5,7 +5,9 @@ package main
 
 import (
 	"bytes"
+	"encoding/json"
 	"fmt"
+	"strings"
 	"unicode/utf8"
 
 	"github.com/nyaruka/goflow/flows"
@@ -344,6 +346,98 @@ func oracleC05(h *History, ci int, c *CallObs, res *hx.Result, st5 *c05state) {
 
 // ---- C10 ------------------------------------------------------------------------------------------------
 
+// what the session JSON says before the call (read with encoding/json only, no goflow types)
+type beforeSession struct {
+	Status string `json:"status"`
+	Runs   []struct {
+		Status string `json:"status"`
+		Flow   struct {
+			UUID string `json:"uuid"`
+		} `json:"flow"`
+		Path []struct {
+			NodeUUID string `json:"node_uuid"`
+		} `json:"path"`
+		Events []struct {
+			Type string `json:"type"`
+		} `json:"events"`
+	} `json:"runs"`
+}
+
+// expectation for a resume, from the sentences of C10:
+//
+//	"rejected with an engine error - the session is not waiting [101], has no waiting run [102], or the
+//	 wait does not accept that type of resume [103]"
+//	"conditions that make resumption impossible (missing flow, vanished node, node without wait, resume
+//	 limit reached) instead end the session as failed"
+//
+// reject != 0: must be rejected with that code; impossible: must end as failed; both (the limit is
+// reached AND the wait would not accept): the sentences overlap, either outcome is allowed.
+type c10expect struct {
+	reject     int
+	impossible string
+}
+
+func expectC10(before []byte, a *Assets, op *Op) (c10expect, bool) {
+	var b beforeSession
+	if err := json.Unmarshal(before, &b); err != nil {
+		return c10expect{}, false
+	}
+	if b.Status != "waiting" {
+		return c10expect{reject: 101}, true
+	}
+	wi := -1
+	for i, r := range b.Runs {
+		if r.Status == "waiting" {
+			wi = i
+			break
+		}
+	}
+	if wi < 0 {
+		return c10expect{reject: 102}, true
+	}
+	var ex c10expect
+	waits := 0
+	for _, r := range b.Runs {
+		for _, e := range r.Events {
+			if strings.HasSuffix(e.Type, "_wait") {
+				waits++
+			}
+		}
+	}
+	if waits >= a.Opts.MaxResumes {
+		ex.impossible = "resume limit reached"
+	}
+	wr := b.Runs[wi]
+	f := a.flow(idOf(wr.Flow.UUID))
+	if f == nil {
+		return c10expect{impossible: "missing flow"}, true
+	}
+	if len(wr.Path) == 0 {
+		return c10expect{impossible: "vanished node"}, true
+	}
+	n := f.node(idOf(wr.Path[len(wr.Path)-1].NodeUUID))
+	if n == nil {
+		return c10expect{impossible: "vanished node"}, true
+	}
+	if n.Router == nil || n.Router.Wait == nil {
+		return c10expect{impossible: "node without wait"}, true
+	}
+	// the accept table: a msg wait accepts msg and run_expiration, and wait_timeout iff it has a timeout
+	accepted := false
+	switch op.Kind {
+	case "msg", "tamper", "expiration":
+		accepted = true
+	case "timeout":
+		accepted = n.Router.Wait.HasTimeout
+	case "dial":
+		accepted = false
+	}
+	if !accepted {
+		ex.reject = 103
+	}
+	return ex, true
+}
+
 func oracleC10(h *History, ci int, c *CallObs, res *hx.Result) {
 	{
 		if ci == 0 {
@@ -353,6 +447,11 @@ func oracleC10(h *History, ci int, c *CallObs, res *hx.Result) {
 			res.Fail("C10:"+class, historyJSON(h), fmt.Sprintf("call %d (%s %s): %s", ci, c.Op.Kind, c.Op.Fault, detail))
 		}
 		res.OracleChecks++
+		ex, ok := expectC10(c.Before, c.Assets, c.Op)
+		if !ok {
+			fail("harness:before-json", "cannot read the session JSON before the call")
+			return
+		}
 		switch c.Kind {
 		case 3:
 			fail("panic", "Resume panicked: "+c.Err)
@@ -371,24 +470,37 @@ func oracleC10(h *History, ci int, c *CallObs, res *hx.Result) {
 			if c.Code != 101 && c.Code != 102 && c.Code != 103 {
 				fail("unknown-error-code", fmt.Sprintf("engine error code %d", c.Code))
 			}
+			// ... and it must be one of the three situations
+			switch {
+			case ex.reject == 0 && ex.impossible == "":
+				fail(fmt.Sprintf("acceptable-resume-rejected-%d", c.Code), "the session was waiting on a wait that accepts this resume, yet it was rejected: "+c.Err)
+			case ex.reject == 0 && ex.impossible != "":
+				fail("impossible-resume-rejected:"+strings.ReplaceAll(ex.impossible, " ", "-"), "resumption was impossible ("+ex.impossible+") but the resume was rejected instead of failing the session: "+c.Err)
+			case ex.reject != c.Code:
+				fail(fmt.Sprintf("wrong-error-code-%d-for-%d", c.Code, ex.reject), "rejected with another code than the situation calls for: "+c.Err)
+			}
 		case 0:
+			if ex.reject != 0 && ex.impossible == "" {
+				fail(fmt.Sprintf("resume-not-rejected-%d", ex.reject), "the resume had to be rejected but the call went through")
+			}
 			// conditions that make resumption impossible end the session as failed with a failure event
-			impossible := false
+			failureEvents := 0
 			for _, ev := range c.Sprint.Events() {
-				if txt, ok := failureText(ev); ok {
-					switch failCode(txt) {
-					case 3, 4, 5, 6, 7:
-						impossible = true
-					}
+				if _, ok := failureText(ev); ok {
+					failureEvents++
 				}
 			}
-			if impossible {
+			if ex.impossible != "" && ex.reject == 0 {
+				cl := strings.ReplaceAll(ex.impossible, " ", "-")
 				if c.Session.Status() != flows.SessionStatusFailed {
-					fail("impossible-resume-not-failed", "session is "+string(c.Session.Status()))
+					fail("impossible-resume-not-failed:"+cl, "resumption was impossible ("+ex.impossible+") but the session is "+string(c.Session.Status()))
+				}
+				if failureEvents == 0 {
+					fail("impossible-resume-without-failure-event:"+cl, "resumption was impossible ("+ex.impossible+") but the sprint has no failure event")
 				}
 				for ri, r := range c.Session.Runs() {
 					if r.Status() == flows.RunStatusActive || r.Status() == flows.RunStatusWaiting {
-						fail("impossible-resume-leaves-live-run", fmt.Sprintf("run %d is still %s", ri, r.Status()))
+						fail("impossible-resume-leaves-live-run:"+cl, fmt.Sprintf("run %d is still %s", ri, r.Status()))
 					}
 				}
 			}
